@@ -140,7 +140,15 @@ def gen_case(rng, tier):
         m["reward"] = {kk: str(F(v) * k) for kk, v in m["reward"].items()}
     eps = rng.choice(["1/10", "1/100", "1/100000", "1/100000000"]) if rng.random() < .5 else "1/100000"
     mi = rng.choice([100000] * 8 + [1, 2, 5])
-    return {"mdp": m, "max_residual": eps, "max_iterations": mi,
+    batch = None
+    if rng.random() < .35:
+        # batch entry point: 2..4 problems, sometimes exactly as many as there are states
+        nb = m["n"] if (rng.random() < .4 and m["n"] >= 2) else rng.choice([2, 3, 4])
+        pos = rng.randrange(nb)
+        gs = ["1"] if F(m["gamma"]) == 1 else ["1/2", "3/4", "9/10", "1/5", "19/20"]
+        batch = {"variants": [None if k == pos else {"scale": rng.choice(["2", "3", "1/2", "5"]), "gamma": rng.choice(gs)}
+                              for k in range(nb)]}
+    return {"mdp": m, "max_residual": eps, "max_iterations": mi, "batch": batch,
             "undefined_value": rng.choice(["0", "-7", "-inf", "-inf"] if gamma == "1" else ["0", "0", "-7", "-inf"]),
             "explicit_lists": rng.random() < .3,
             "action_order": rng.choice(["sorted", "sorted", "desc", "shuffled"]), "action_order_seed": rng.randrange(10**6)}
@@ -289,7 +297,7 @@ def search_failing(case, res, planner, out):
     eps = F(case["max_residual"])
     V = [vlib.frac(v) if not isinstance(v, str) else None for v in out["V"]]
     scale = max([F(1)] + [abs(x) for x in Vs])
-    bound = (eps if planner != "pi" else F(2, 10**5) * scale) / (1 - g) + F(1, 10**7) * scale
+    bound = (eps if not planner.startswith("pi") else F(2, 10**5) * scale) / (1 - g) + F(1, 10**7) * scale
     for s in range(n):
         if V[s] is None or abs(V[s] - Vs[s]) > bound:
             return {"clause": "state value differs from exact optimal value beyond residual bound",
@@ -303,7 +311,7 @@ def search_failing(case, res, planner, out):
             continue
         best = max(Qs[s][a] for a in range(nA) if av[s][a])
         # what theorem C01_policy_support allows: band + 2 qtol + 2 gamma eps/(1-gamma)
-        epsq = eps if planner != "pi" else F(2, 10**5) * scale
+        epsq = eps if not planner.startswith("pi") else F(2, 10**5) * scale
         slack = 2 * g * epsq / (1 - g) + (2 * g * epsq if planner != "vi_vec" else 0) + F(1, 10**4) * scale
         for a in range(nA):
             p = out["pi"][s][a]
@@ -349,7 +357,7 @@ def run(ctx):
                            "impl_unable": res["unable_vec"], "model_unable": m_unable,
                            "correspondence": "model/MDP.v:absorbing / unable_to_reach (exact comparisons) vs TabularMarkovDecisionProcess.absorbing_state_vec / _unable_to_reach_absorbing"},
                           found=False)
-        for planner in ("vi_vec", "vi_dict", "pi"):
+        for planner in ("vi_vec", "vi_dict", "pi") + (("pi_batch",) if "pi_batch" in res["planners"] else ()):
             out = res["planners"][planner]
             if "error" in out:
                 ctx.violation("C01:%s:raises:%s" % (planner, out["error"].split(":")[0]),
